@@ -264,6 +264,37 @@ def check(ctx):
     else:
         run.ok('R16o', wt.where, j.qualname + ' writes arrays / normalised rows')
 
+    # CSV: cells are placed under their column by field NAME (csv.DictWriter over the schema's field names); writing a row's
+    # values positionally pairs them with the header only if the row dict happens to be keyed in schema order, which
+    # select_fields / concatenate / unpivot / user row functions do not guarantee
+    cw = c.methods.get('write_transformed_row')
+    cinit = ctx.N(c.methods.get('__init__'))
+    dict_writers = [n for n in ast.walk(cinit.node) if isinstance(n, ast.Call) and
+                    (res.external_name(n) == 'csv.DictWriter' or
+                     any(hasattr(t, 'mro') and 'csv.DictWriter' in res.external_bases(t) for t in res.resolve_call(n)))]
+    plain_writers = [n for n in ast.walk(cinit.node) if isinstance(n, ast.Call) and res.external_name(n) == 'csv.writer']
+    hdr_ok = bool(dict_writers) and not plain_writers
+    for wcall in dict_writers:
+        fn_arg = wcall.args[1] if len(wcall.args) > 1 else next((k.value for k in wcall.keywords if k.arg == 'fieldnames'), None)
+        from sa.normalize import reaching_value as _rv
+        v_ = fn_arg
+        if isinstance(v_, ast.Name):
+            anchor = wcall
+            while getattr(anchor, '_parent', None) is not None and not isinstance(anchor, ast.stmt):
+                anchor = anchor._parent
+            v_ = _rv(anchor, v_.id) or v_
+        hdr_ok = hdr_ok and v_ is not None and match_expr('[_f.name for _f in __S.fields]', v_) is not None
+    run.check(hdr_ok, 'R16o', cinit.where, c.qualname, 'csv.DictWriter(file, [f.name for f in schema.fields])',
+              'the CSV writer is not a DictWriter over the schema field names in schema order')
+    if cw is not None:
+        cwn = ctx.N(cw)
+        rowp = cwn.params[1]
+        wcalls = [n for n in ast.walk(cwn.node) if isinstance(n, ast.Call) and isinstance(n.func, ast.Attribute)
+                  and n.func.attr in ('writerow', 'writerows', 'write')]
+        okw = len(wcalls) == 1 and match_expr('self.writer.writerow(%s)' % rowp, wcalls[0]) is not None
+        run.check(okw, 'R16o', cwn.where, cwn.qualname, 'self.writer.writerow(<row dict>)',
+                  'CSV cells are not placed under their columns by field name (the row dict is not handed to the DictWriter '
+                  'as a dict): a row keyed in another order than the schema is written under the wrong headers')
     run.rule('R19c', 'PATH: the data file is copied out under the path recorded in the descriptor')
     rp = commits.rows_processor(ctx)
     facts = Facts(rp, include_nested=False)
